@@ -187,12 +187,15 @@ Definition has_visible_field (o : obj) (n : name) : res bool :=
   end.
 
 (* ---- ObjectData::get_fields_order ----
-   enum FieldState { Normal(Visibility), Removed(usize) } *)
-Inductive fstate := SNormal (v : vis) | SRemoved (layer_i : N).
+   enum FieldState { Normal(Visibility, usize), Removed(usize) }
+   [Normal(vis, skip_until)]: visibility found so far, and the last layer hidden
+   from this field by a [Removed] marker met below it (repaired state machine,
+   see notes/C07.md; the machine as first found is Proofs: [Old]). *)
+Inductive fstate := SNormal (v : vis) (skip_until : N) | SRemoved (layer_i : N).
 
 Definition field_to_state (f : field) (layer_i : N) : fstate :=
   match f with
-  | Normal d => SNormal (f_vis d)
+  | Normal d => SNormal (f_vis d) 0
   | Removed depth => SRemoved (layer_i + depth)
   end.
 
@@ -222,12 +225,14 @@ Definition merge_entry (layer_i : N) (m : btmap) (nf : name * field) : btmap :=
   let '(n, f) := nf in
   match bt_get m n with
   | None => bt_set m n (field_to_state f layer_i)
-  | Some (SNormal Default) =>
-      match f with
-      | Normal d => bt_set m n (SNormal (f_vis d))
-      | Removed _ => m
-      end
-  | Some (SNormal _) => m
+  | Some (SNormal Default skip_until) =>
+      if skip_until <? layer_i then
+        match f with
+        | Normal d => bt_set m n (SNormal (f_vis d) 0)
+        | Removed depth => bt_set m n (SNormal Default (layer_i + depth))
+        end
+      else m
+  | Some (SNormal _ _) => m
   | Some (SRemoved removed_layer_i) =>
       if removed_layer_i <? layer_i then bt_set m n (field_to_state f layer_i) else m
   end.
@@ -240,7 +245,7 @@ Fixpoint merge_layers (m : btmap) (layer_i : N) (ls : list layer) : btmap :=
 
 Definition state_entry (e : name * fstate) : option (name * vis) :=
   match e with
-  | (n, SNormal v) => Some (n, v)
+  | (n, SNormal v _) => Some (n, v)
   | (_, SRemoved _) => None
   end.
 
